@@ -170,7 +170,8 @@ def run_check(prop, tier, seed, a, t0):
     ledger = json.load(open(ledger_path)) if os.path.exists(ledger_path) else {}
     shas = {u.contract.file: u.src_sha for u in units}
     if a.update_ledger:
-        ledger[prop] = {"obligations": sorted(set(ledger_now)), "sources": shas}
+        ledger[prop] = {"obligations": sorted(set(ledger_now)), "sources": shas,
+                        "shapes": {unit_key(u): u.shape for u in units if u.shape is not None and u.case.loops}}
         json.dump(ledger, open(ledger_path, "w"), indent=0, sort_keys=True)
     elif not a.only:
         led = ledger.get(prop)
@@ -312,6 +313,23 @@ def match_known(known, prop, key_text):
 _LEDGER = None
 
 
+def unit_key(u):
+    return "%s:%s" % (u.contract.file, u.case.name)
+
+
+def stale_loops(prop, u):
+    """the loop specifications of this unit were proved for loops assigning other variables than the current text does:
+    returns a description, or None"""
+    global _LEDGER
+    if _LEDGER is None:
+        p = os.path.join(ROOT, "contracts", "ledger.json")
+        _LEDGER = json.load(open(p)) if os.path.exists(p) else {}
+    then = _LEDGER.get(prop, {}).get("shapes", {}).get(unit_key(u))
+    if then is None or not u.case.loops or u.shape is None or then == u.shape:
+        return None
+    return "loops assigned %s when the contract was proved, %s now" % (then, u.shape)
+
+
 def in_ledger(prop, oid):
     global _LEDGER
     if _LEDGER is None:
@@ -334,6 +352,12 @@ def handle_failed(prop, u, r, oid, known, violations, undecided, known_lines, ti
     confirmed = bool(replay and replay.get("violates"))
     if k is not None:
         known_lines.append("KNOWN-FINDING: property=%s %s" % (prop, k["what"]))
+        return
+    stale = None if confirmed else stale_loops(prop, u)
+    if stale:
+        # the loop invariants of the contract name loop-carried locals of an earlier text of the function (renamed /
+        # restructured loop): the proof has to be redone; a failed obligation says nothing about the property
+        undecided.append((oid, "stale contract: " + stale))
         return
     if not confirmed and r.vc.kind in INTERNAL and not in_ledger(prop, oid):
         # an internal obligation (invariant / measure / callee precondition) that was never proved on the committed tree:
